@@ -412,8 +412,9 @@ def main(argv):
     rc = 0
     known_hits = {}
     violations = []
-    os.makedirs(os.path.join(VERIF, 'replays'), exist_ok=True)
-    for old in glob.glob(os.path.join(VERIF, 'replays', f'{prop}_*.json')):
+    repdir = os.path.join(os.environ['VERIF_EVIDENCE_DIR'], 'replays') if os.environ.get('VERIF_EVIDENCE_DIR') else os.path.join(VERIF, 'replays')
+    os.makedirs(repdir, exist_ok=True)
+    for old in glob.glob(os.path.join(repdir, f'{prop}_*.json')):
         os.remove(old)     # replays of earlier runs of this property are stale
     for sig, f in sorted(total.findings.items()):
         if sig in known:
@@ -436,7 +437,7 @@ def main(argv):
         except Exception:
             pass
         fname = ''.join(c if c.isalnum() or c in '-_.' else '_' for c in sig)[:120]
-        path = os.path.join(VERIF, 'replays', f'{fname}.json')
+        path = os.path.join(repdir, f'{fname}.json')
         with open(path, 'w', encoding='utf-8') as fp:
             fp.write(jdump({'property': prop, 'signature': sig, 'case': shrunk, 'detail': detail,
                             'hits': f['count'], 'shrink_attempts': tried, 'seed': seed, 'tier': tier}, indent=1))
@@ -467,8 +468,9 @@ def main(argv):
         'wall_s': round(wall, 2),
         'violations': len(violations),
     }
-    os.makedirs(os.path.join(VERIF, 'evidence'), exist_ok=True)
-    with open(os.path.join(VERIF, 'evidence', f'{prop}.json'), 'w', encoding='utf-8') as fp:
+    evdir = os.environ.get('VERIF_EVIDENCE_DIR') or os.path.join(VERIF, 'evidence')
+    os.makedirs(evdir, exist_ok=True)
+    with open(os.path.join(evdir, f'{prop}.json'), 'w', encoding='utf-8') as fp:
         fp.write(jdump(ev, indent=1))
     print(f'{prop} {tier} seed={seed}: evaluations={total.evaluations} '
           f'distinct_nontrivial={len(total.nontrivial)} known_hits={sum(known_hits.values())} '
